@@ -8,7 +8,11 @@ from vlib import cN, clist, cbool
 IMPORTS = "From DtlsV Require Import Hs.C14Resume Hs.C14ResumeSound Hs.C14Run."
 SITE = "internal/flight/flight12 resumption (flight0/1/3/4/4b/5 handlers), conn.go notify/sessionKey"
 FAULTS = {"": "NoFault", "wrongpsk": "NoFault", "ems": "FEms", "sems": "FSEms", "alpn": "FAlpn",
-          "sverify": "FSVerify", "cverify": "FCVerify", "noccert": "FSPolicy"}
+          "sverify": "FSVerify", "cverify": "FCVerify", "noccert": "FSPolicy",
+          # the client refuses the ServerHello inside flight3Parse: a suite it did not offer draws the same alert (71)
+          # at the same point of the code as the missing extended master secret; an application protocol it did not
+          # offer draws illegal_parameter (47)
+          "shsuite": "FEms", "shalpn": "FShAlpn"}
 
 
 class Ids:
@@ -146,49 +150,80 @@ def monitors(h):
         if sok and (c["s_rcid"], c["s_lcid"]) != want:
             bad.append(("cid-not-of-this-connection", i, "server connection ids are not those generated in this connection"))
         # M6 fatal_alert_evicts: endpoint X put a fatal alert ON THE WIRE (plaintext during the handshake, or a
-        # protected record of the established connection opened in-package with the peer's keys) while its
-        # state.SessionID was not empty => X's store no longer holds that session => the next ClientHello of X
-        # does not offer it / the server does not resume it.
+        # protected record of the established connection opened in-package with the peer's keys) on a connection
+        # that was ON session S => X's store no longer holds S => the next ClientHello of X does not offer it / the
+        # server does not resume it.  "On session S" is decided twice, independently:
+        #   (state) X's state.SessionID (read in-package at the end) is S - the variable conn.go notify consults;
+        #   (wire)  from the hellos alone: the client is on the session it OFFERED as long as no ServerHello declined
+        #           it (none seen yet, or the ServerHello echoes the id), after a ServerHello on the session that
+        #           hello names; the server is on the session its own ServerHello names.
+        # The wire reading does not depend on what the implementation keeps in (or wipes from) its state when it
+        # refuses a hello.
         nxt = conns[i + 1] if i + 1 < len(conns) else None
         for a in c["alerts"]:
             if a["level"] == -1:
                 bad.append(("undecodable-protected-alert", i, "a protected alert of side %s could not be opened with the "
                             "peer's keys" % a["side"]))
+        shs = c["sh_sid"][-1] if c["sh_sid"] else None
         for side in ("c", "s"):
             fatal = [a for a in c["alerts"] if a["side"] == side and a["level"] == 2]
             if not fatal:
                 continue
             a = fatal[0]
-            sess_on = c[side + "_isid"]
             where = "after establishment (record path)" if a.get("post") else "during the handshake"
-            if not sess_on:
+            on = []  # (session id, how it was determined)
+            if c[side + "_isid"]:
+                on.append((c[side + "_isid"], "its state.SessionID"))
+            if side == "c" and not st["no_cstore"]:
+                wsid = off if shs is None else shs
+                how = ("offered in its ClientHello, no ServerHello seen" if shs is None else
+                       "offered in its ClientHello and echoed by the ServerHello" if shs == off else
+                       "named by the ServerHello")
+            elif side == "s" and not st["no_sstore"]:
+                wsid = shs or ""
+                how = "echoed in its ServerHello" if wsid == off else "named in its ServerHello"
+            else:
+                wsid, how = "", ""
+            if wsid and wsid not in [x[0] for x in on]:
+                on.append((wsid, how))
+            if not on:
                 if side == "c" and off and post_c.get(c["key"], {}).get("id") == off:
                     note("client sent a fatal alert after the server declined its offer with an EMPTY session id: "
                          "the offered entry stays")
                 continue
-            if side == "c":
-                e = post_c.get(c["key"])
-                if e is not None and not e["nil"] and e["id"] == sess_on:
-                    bad.append(("alerted-session-still-stored", i, "client sent fatal alert %d %s on a session that its "
-                                "store still holds" % (a["desc"], where)))
-                if nxt and not nxt["step"]["muts"] and nxt["key"] == c["key"] and not nxt["step"]["no_cstore"] \
-                        and sess_on in nxt["ch_sid"]:
-                    bad.append(("alerted-session-offered-again", i, "client sent fatal alert %d %s on a session and offers "
-                                "it in the next ClientHello" % (a["desc"], where)))
-                    if mode_of(nxt) == 1:
-                        bad.append(("alerted-session-resumed", i, "client sent fatal alert %d %s on a session and the next "
-                                    "connection resumes it" % (a["desc"], where)))
-            else:
-                if sess_on in post_s and not post_s[sess_on]["nil"]:
-                    bad.append(("alerted-session-still-stored", i, "server sent fatal alert %d %s on a session that its "
-                                "store still holds" % (a["desc"], where)))
-                if nxt and not nxt["step"]["muts"] and not nxt["step"]["no_sstore"] and sess_on in nxt["ch_sid"] \
-                        and mode_of(nxt) == 1:
-                    bad.append(("alerted-session-resumed", i, "server sent fatal alert %d %s on a session and resumes it "
-                                "in the next connection" % (a["desc"], where)))
+            for sess_on, how in on:
+                tag = "%d %s on session %s.. (%s)" % (a["desc"], where, sess_on[:8], how)
+                if side == "c":
+                    e = post_c.get(c["key"])
+                    if e is not None and not e["nil"] and e["id"] == sess_on:
+                        bad.append(("alerted-session-still-stored", i, "client sent fatal alert %s that its store still "
+                                    "holds" % tag))
+                    if nxt and not nxt["step"]["muts"] and nxt["key"] == c["key"] and not nxt["step"]["no_cstore"] \
+                            and sess_on in nxt["ch_sid"]:
+                        bad.append(("alerted-session-offered-again", i, "client sent fatal alert %s and offers it in the "
+                                    "next ClientHello" % tag))
+                        if mode_of(nxt) == 1:
+                            bad.append(("alerted-session-resumed", i, "client sent fatal alert %s and the next connection "
+                                        "resumes it" % tag))
+                else:
+                    if sess_on in post_s and not post_s[sess_on]["nil"]:
+                        bad.append(("alerted-session-still-stored", i, "server sent fatal alert %s that its store still "
+                                    "holds" % tag))
+                    if nxt and not nxt["step"]["muts"] and not nxt["step"]["no_sstore"] and sess_on in nxt["ch_sid"] \
+                            and mode_of(nxt) == 1:
+                        bad.append(("alerted-session-resumed", i, "server sent fatal alert %s and resumes it in the next "
+                                    "connection" % tag))
             if a.get("post"):
                 note("record-path fatal alert %d on an established connection observed on the wire (%s, %s)"
                      % (a["desc"], side, st.get("post", "")[2:]))
+        if st["fault"] in ("shalpn", "shsuite"):
+            if c.get("rogue", 0) > 0 and any(x["side"] == "c" and x["level"] == 2 for x in c["alerts"]):
+                note("client refused a ServerHello with a selection it did not offer (%s, %s)"
+                     % (st["fault"], ["full", "abbreviated", "none"][mode]))
+            elif c["sh_sid"]:
+                bad.append(("rogue-hello-not-refused", i, "the ServerHello carried a %s the client did not offer and the "
+                            "client sent no fatal alert (rogue hellos: %d)" % (
+                                "cipher suite" if st["fault"] == "shsuite" else "application protocol", c.get("rogue", 0))))
         if st.get("migrate") and cok and sok:
             if c.get("c_raddr") == "serverNAT":
                 note("peer address migrated before the end of the connection (client rAddr moved; store key must stay "
@@ -306,7 +341,7 @@ def slim(h):
     for c in h["conns"]:
         out["conns"].append({k: c[k] for k in ("step", "key", "pre_c", "pre_s", "post_c", "post_s", "ops_c", "ops_s", "c_out",
                                                "s_out", "c_err", "s_err", "c_isid", "s_isid", "c_ms", "s_ms", "ch_sid", "sh_sid",
-                                               "wire", "alerts", "data_ok", "c_lcid", "c_rcid", "s_lcid", "s_rcid")})
+                                               "wire", "alerts", "data_ok", "rogue", "c_lcid", "c_rcid", "s_lcid", "s_rcid")})
         out["conns"][-1]["wire"] = out["conns"][-1]["wire"][:16]
     return out
 
@@ -315,7 +350,9 @@ HOW = ("harness/overlay/root/zz_verif_c14_test.go: one client and one server sha
        "stores over the connections of `conns` (in order); before a connection the script applies `step.muts` to the "
        "stores, configures `step.fault` (ems/sems: ExtendedMasterSecret Require vs Disable; alpn: disjoint protocols; "
        "sverify/cverify: VerifyConnection returns an error; wrongpsk: client PSK differs; noccert: server requires "
-       "a client certificate, the client has none; `step.migrate`: after establishment the server's datagrams arrive from a second address and the "
+       "a client certificate, the client has none; shalpn: both offer protocol verif-a, the server's "
+       "ServerHelloMessageHook selects verif-x; shsuite: the cipher_suite bytes of every ServerHello are replaced on "
+       "the path by the variant's other suite, which the client did not offer; `step.migrate`: after establishment the server's datagrams arrive from a second address and the "
        "client's path challenge is answered, so the client's remote address moves; `step.post` c_/s_ app0|ct99|enc99: "
        "after establishment ONE forged record - plaintext epoch-0 application_data or content type 99 (both discarded silently by the "
        "current tree), or content type 99 sealed with the session keys (tls12_cid-wrapped when ids are in use; draws a "
@@ -396,7 +433,8 @@ def run(chk, script=None):
             classes[k] = classes.get(k, 0) + 1
     chk.leg_info("histories", histories=len(hists), connections=nconn, outcome_classes=classes,
                  observations_not_part_of_the_property=observations,
-                 scripted="every store mutation before the 2nd and before the 3rd connection; every provoked alert on an "
+                 scripted="every store mutation before the 2nd and before the 3rd connection; every provoked alert (incl. the client "
+                          "refusing the ServerHello inside flight3Parse: ems, shalpn, shsuite - also twice in a row) on an "
                           "abbreviated / full / fallback / server-without-store connection; black holes of either "
                           "ChangeCipherSpec flight; all masks over {pass,drop,dup,hold:1}^3 on the three datagrams of the "
                           "abbreviated handshake; CID lengths per connection; other suite / address / server name; "
@@ -434,7 +472,9 @@ def run(chk, script=None):
         assumptions=["record protection and verify_data idealised: a record opens only under the key block it was sealed "
                      "with, KB and VD injective (explicit premises K_eqb_spec, V_eqb_spec, KB_inj, VD_inj of the theorems; "
                      "the correspondence runs the real AEAD/PRF)",
-                     "unmodified datagrams (tampering with hellos or Finished is C11/C04); alerts are not lost",
+                     "unmodified datagrams (tampering with hellos or Finished is C11/C04) - except step.fault shsuite, which replaces the "
+                     "cipher_suite bytes of the ServerHello on the path (a suite the client did not offer; the server's own code "
+                     "refuses to send one); alerts are not lost",
                      "the master secret of a full handshake is a parameter of the connection (key exchange is C10/C04)",
                      "a side that stalls is observed as 'returns only when the caller's 40 s deadline expires'"],
         explanation="See evidence legs.histories.observations_not_part_of_the_property for behaviour that the property "
